@@ -42,12 +42,16 @@ def main():
                 res_b = list(ex.map(lambda p: failing(base, p), IDS))
                 res_n = list(ex.map(lambda p: failing(new, p), IDS))
             bad = []
+            closed = []
             for pid, (rcb, kb, _), (rcn, kn, out) in zip(IDS, res_b, res_n):
-                if rcn == 2:
+                if rcn == 2 and pid in m.get('may_fail_closed', []):
+                    closed.append(pid)
+                elif rcn == 2:
                     bad.append('%s: ANALYSIS-ERROR %s' % (pid, [l for l in out.splitlines() if 'ANALYSIS-ERROR' in l][:1]))
                 elif kn - kb:
                     bad.append('%s: new alarms %s' % (pid, sorted(kn - kb)))
-            print('%-12s %s' % (m['id'], 'silent' if not bad else 'ALARMS: ' + '; '.join(bad)))
+            print('%-12s %s%s' % (m['id'], 'silent' if not bad else 'ALARMS: ' + '; '.join(bad),
+                                   (' (fail-closed as documented: %s)' % ' '.join(closed)) if closed else ''))
             ok = ok and not bad
         finally:
             shutil.rmtree(base, ignore_errors=True); shutil.rmtree(new, ignore_errors=True)
